@@ -32,6 +32,57 @@ def run_method(two_d, name, e, x, z, y, max_iter, tol, extra=None):
         return getattr(fit, name)(y, **kw)
 
 
+class RuleCounter:
+    """wraps every rule of pybaselines._weighting and counts the calls that did not signal the early exit"""
+
+    def __init__(self):
+        self.calls = 0
+        self.completed = 0
+        self.exits = 0
+        self.saved = []
+
+    def __enter__(self):
+        from pybaselines import _weighting as W
+        for nm, fn in list(vars(W).items()):
+            if nm.startswith('_') and callable(fn) and nm not in ('_safe_std',) and getattr(fn, '__module__', '') == W.__name__:
+                self.saved.append((nm, fn))
+
+                def wrapper(*a, __fn=fn, **k):
+                    out = __fn(*a, **k)
+                    self.calls += 1
+                    flag = out[-1] if isinstance(out, tuple) and isinstance(out[-1], (bool, np.bool_)) else False
+                    if flag:
+                        self.exits += 1
+                    else:
+                        self.completed += 1
+                    return out
+                setattr(W, nm, wrapper)
+        return self
+
+    def __exit__(self, *exc):
+        from pybaselines import _weighting as W
+        for nm, fn in self.saved:
+            setattr(W, nm, fn)
+
+
+def count_invariant(two_d, name, e, x, z, y, max_iter, tol, extra=None):
+    """len(tol_history) must equal the number of completed reweighting steps (rule calls without early exit);
+    returns a description of the mismatch or None (hosts that do not use the rules return None)"""
+    with RuleCounter() as rc:
+        try:
+            b, p = run_method(two_d, name, e, x, z, y, max_iter, tol, extra)
+        except Exception:
+            return None
+    th = np.asarray(p.get('tol_history', []))
+    if th.ndim != 1 or rc.calls == 0:
+        return None
+    # some hosts compute initial weights with a rule before the loop (iasls): allow that single extra completed call
+    if len(th) == rc.completed or (name in ('iasls', 'pspline_iasls') and len(th) == rc.completed - 1):
+        return None
+    return (f'tol_history has {len(th)} entries but {rc.completed} reweighting steps were completed '
+            f'({rc.calls} rule calls, {rc.exits} early exit{"s" if rc.exits != 1 else ""})')
+
+
 def load_golden():
     if os.path.exists(GOLDEN):
         return json.load(open(GOLDEN))
@@ -42,7 +93,7 @@ def budget_of(code, max_iter):
     return max_iter + {'N+1': 1, 'N': 0, 'N-1': -1}[code]
 
 
-def replay_method(ctx, two_d, name, e, x, z, y, K=8, extra=None):
+def replay_method(ctx, two_d, name, e, x, z, y, K=8, extra=None, count=False):
     """returns list of (kind, detail, meta) problems; kind in {'budget', 'stop', 'prefix', 'len'}"""
     golden = load_golden()
     key = ('2d.' if two_d else '') + name
@@ -54,6 +105,9 @@ def replay_method(ctx, two_d, name, e, x, z, y, K=8, extra=None):
     th = np.asarray(p.get('tol_history', []), dtype=float)
     if th.ndim != 1:
         return []
+    ci = count_invariant(two_d, name, e, x, z, y, K, 0, extra) if count else None
+    if ci:
+        probs.append(('count', f'{key}(max_iter={K}, tol=0): {ci}', {'max_iter': K, 'tol': 0}))
     code = golden.get(key)
     if code is None:
         return [('golden', f'{key}: no golden budget entry', {})]
